@@ -350,6 +350,24 @@ impl Poly {
 }
 /// linear normal form of a term over "atoms" (variables, sqrt/uf nodes, nonlinear products/quotients): c0 + sum c_i * atom_i
 pub struct Lin { pub c0: BigRational, pub t: Vec<(u32, BigRational)> }
+/// Exact rational arithmetic with a fast path for dyadic numbers (every f64 constant is one, and sums and products of dyadic
+/// numbers stay dyadic): `num_rational` reduces every result with a binary gcd that shifts one bit at a time, which is quadratic
+/// on the 10^4-bit coefficients of a long recursion; for denominators that are powers of two the reduction is a count of trailing zeros.
+fn dy_exp(d: &BigInt) -> Option<u64> { let tz = d.trailing_zeros()?; if d.bits() == tz + 1 && d.is_positive() { Some(tz) } else { None } }
+fn dy_norm(n: BigInt, e: u64) -> BigRational {
+    if n.is_zero() { return BigRational::zero(); }
+    let tz = n.trailing_zeros().unwrap_or(0).min(e);
+    BigRational::new_raw(n >> tz, BigInt::one() << (e - tz))
+}
+pub fn q_mul(a: &BigRational, b: &BigRational) -> BigRational {
+    match (dy_exp(a.denom()), dy_exp(b.denom())) { (Some(ea), Some(eb)) => dy_norm(a.numer() * b.numer(), ea + eb), _ => a * b }
+}
+pub fn q_add(a: &BigRational, b: &BigRational) -> BigRational {
+    match (dy_exp(a.denom()), dy_exp(b.denom())) {
+        (Some(ea), Some(eb)) => { let e = ea.max(eb); dy_norm((a.numer() << (e - ea)) + (b.numer() << (e - eb)), e) }
+        _ => a + b,
+    }
+}
 impl Lin {
     fn combine(a: &Lin, b: &Lin, kb: &BigRational) -> Lin {
         // a + kb * b
@@ -357,12 +375,12 @@ impl Lin {
         let (mut i, mut j) = (0, 0);
         while i < a.t.len() || j < b.t.len() {
             if j >= b.t.len() || (i < a.t.len() && a.t[i].0 < b.t[j].0) { t.push(a.t[i].clone()); i += 1; }
-            else if i >= a.t.len() || b.t[j].0 < a.t[i].0 { t.push((b.t[j].0, kb * &b.t[j].1)); j += 1; }
-            else { let c = &a.t[i].1 + kb * &b.t[j].1; if !c.is_zero() { t.push((a.t[i].0, c)); } i += 1; j += 1; }
+            else if i >= a.t.len() || b.t[j].0 < a.t[i].0 { t.push((b.t[j].0, q_mul(kb, &b.t[j].1))); j += 1; }
+            else { let c = q_add(&a.t[i].1, &q_mul(kb, &b.t[j].1)); if !c.is_zero() { t.push((a.t[i].0, c)); } i += 1; j += 1; }
         }
-        Lin { c0: &a.c0 + kb * &b.c0, t }
+        Lin { c0: q_add(&a.c0, &q_mul(kb, &b.c0)), t }
     }
-    fn scale(a: &Lin, k: &BigRational) -> Lin { if k.is_zero() { Lin { c0: BigRational::zero(), t: vec![] } } else { Lin { c0: &a.c0 * k, t: a.t.iter().map(|(v, c)| (*v, c * k)).collect() } } }
+    fn scale(a: &Lin, k: &BigRational) -> Lin { if k.is_zero() { Lin { c0: BigRational::zero(), t: vec![] } } else { Lin { c0: q_mul(&a.c0, k), t: a.t.iter().map(|(v, c)| (*v, q_mul(c, k))).collect() } } }
 }
 
 thread_local! {
@@ -376,10 +394,9 @@ impl Drop for EngGuard { fn drop(&mut self) { IN_ENGINE.with(|e| e.set(e.get() -
 #[inline]
 pub fn enter() -> EngGuard { IN_ENGINE.with(|e| e.set(e.get() + 1)); EngGuard }
 pub fn with<R>(f: impl FnOnce(&mut Ctx) -> R) -> R {
-    IN_ENGINE.with(|e| e.set(e.get() + 1));
-    let r = CTX.with(|c| f(c.borrow_mut().as_mut().expect("no symbolic context on this thread")));
-    IN_ENGINE.with(|e| e.set(e.get() - 1));
-    r
+    // RAII: an engine abort (budget, infeasible assumption) unwinds through here and must not leave the mask set
+    let _g = enter();
+    CTX.with(|c| f(c.borrow_mut().as_mut().expect("no symbolic context on this thread")))
 }
 
 /// payload used to abandon a path from inside the engine (not a crate panic)
@@ -1379,7 +1396,7 @@ fn bin(a: Sym, b: Sym, op: u8) -> Sym {
     let (ka, kb) = (k(a), k(b));
     if let (Some(x), Some(y)) = (&ka, &kb) {
         return match op {
-            0 => cst(x + y), 1 => cst(x - y), 2 => cst(x * y),
+            0 => cst(q_add(x, y)), 1 => cst(q_add(x, &-y.clone())), 2 => cst(q_mul(x, y)),
             _ => if y.is_zero() { if x.is_zero() { nan() } else if x.is_positive() { cf(f64::INFINITY) } else { cf(f64::NEG_INFINITY) } } else { cst(x / y) },
         };
     }
